@@ -823,6 +823,10 @@ func (f *fragment) unprotectedSetRow(row *Row, rowID uint64) (changed bool, err 
 	// Invalidate block checksum.
 	delete(f.checksums, int(rowID/HashBlockSize))
 
+	if rowID > f.maxRowID {
+		f.maxRowID = rowID
+	}
+
 	// Update the row in cache.
 	if f.CacheType != CacheTypeNone {
 		n := f.storage.CountRange(rowID*ShardWidth, (rowID+1)*ShardWidth)
@@ -1260,15 +1264,29 @@ func (f *fragment) maxRow(filter *Row) (uint64, uint64) {
 	minRowID, hasRowID := f.minRowID()
 	if hasRowID {
 		if filter == nil {
-			return f.maxRowID, 1
+			// maxRowID is a high-water mark: rows above the data may have
+			// been cleared since. Return the first row that still has a bit.
+			for i := f.maxRowID; ; i-- {
+				if f.row(i).Count() > 0 {
+					return i, 1
+				}
+				if i <= minRowID {
+					break
+				}
+			}
+			return 0, 0
 		}
 		// iterate back from max row ID and return the first that intersects with filter.
 		// TODO: implement reverse container iteration to improve performance here for sparse data. --Jaffee
-		for i := f.maxRowID; i >= minRowID; i-- {
+		// (i is unsigned: "i >= minRowID" never fails when minRowID is 0.)
+		for i := f.maxRowID; ; i-- {
 			row := f.row(i).Intersect(filter)
 			count := row.Count()
 			if count > 0 {
 				return i, count
+			}
+			if i <= minRowID {
+				break
 			}
 		}
 	}
@@ -2097,6 +2115,10 @@ func (f *fragment) importPositions(set, clear []uint64, rowSet map[uint64]struct
 		}
 
 		f.rowCache.Add(rowID, nil)
+
+		if rowID > f.maxRowID {
+			f.maxRowID = rowID
+		}
 	}
 
 	if f.CacheType != CacheTypeNone {
@@ -2275,6 +2297,9 @@ func (f *fragment) importRoaring(ctx context.Context, data []byte, clear bool) e
 		// Invalidate block checksum.
 		delete(f.checksums, int(rowID/HashBlockSize))
 		f.rowCache.Add(rowID, nil)
+		if rowID > f.maxRowID {
+			f.maxRowID = rowID
+		}
 		if updateCache {
 			anyChanged = true
 			// recount from storage: the cache may not hold the row (evicted or
@@ -2701,6 +2726,11 @@ func (f *fragment) unprotectedRows(start uint64, filters ...rowFilter) []uint64 
 
 		// skip dups
 		if vRow == lastRow {
+			continue
+		}
+
+		// an empty container (left behind by clears) holds no row data
+		if c.N() == 0 {
 			continue
 		}
 
